@@ -58,12 +58,12 @@ Inductive pkind :=
 | KScalar (g : val)
 | KVector (fs : list Z) (gs : list val)
 | KUnknown (other : nat) (s : solved)
-| KCorrelated (other : nat) (s : solved).
+| KCorrelated (other : nat) (sf : option (list Z)) (s : solved).   (* sf: the parameter's OWN sigma frequency grid (None = vpmr_sigma_frequency_vector NULL, or the chain end's own vector) *)
 
 Record param := mkParam { p_kind : pkind; p_deleted : bool; p_hold : nat }.
 
 Definition other_of (k : pkind) : option nat :=
-  match k with KUnknown o _ | KCorrelated o _ => Some o | _ => None end.
+  match k with KUnknown o _ | KCorrelated o _ _ => Some o | _ => None end.
 
 (* vprmc_allocation = length pt_slots *)
 Record ptable := mkPT { pt_slots : list (option param); pt_count : nat; pt_first_free : nat }.
@@ -164,11 +164,32 @@ Fixpoint frange (fuel : nat) (t : ptable) (h : nat) : option (Z * Z) :=
       match p_kind p with
       | KScalar _ => None
       | KVector fs _ => Some (hd 0%Z fs, last fs 0%Z)
-      | KUnknown o _ | KCorrelated o _ => frange f t o
+      | KUnknown o _ | KCorrelated o _ _ => frange f t o
       end
     | None => None
     end
   end.
+
+(* _vnacal_get_parameter_frange, second half: "if the original object is of type VNACAL_CORRELATED and its
+   sigma frequency vector is not NULL, further restrict the range" (only the parameter the question is
+   asked about, not the parameters further down the chain).  None = 0 .. infinity.  The same comparisons as
+   Gen/RangeGen.frange_clamp (regenerated from the C text for C10): fmin < smin ? smin : fmin,
+   smax < fmax ? smax : fmax. *)
+Definition sigma_of (k : pkind) : option (list Z) := match k with KCorrelated _ sf _ => sf | _ => None end.
+Definition sigma_at (t : ptable) (h : nat) : option (list Z) :=
+  match slot t h with Some p => sigma_of (p_kind p) | None => None end.
+Definition clamp_range (sf : option (list Z)) (r : option (Z * Z)) : option (Z * Z) :=
+  match sf with
+  | None => r
+  | Some fs =>
+    let smin := hd 0%Z fs in let smax := last fs 0%Z in
+    match r with
+    | None => Some ((if (0 <? smin)%Z then smin else 0%Z), smax)
+    | Some (a, b) => Some ((if (a <? smin)%Z then smin else a), (if (smax <? b)%Z then smax else b))
+    end
+  end.
+Definition frange_c (fuel : nat) (t : ptable) (h : nat) : option (Z * Z) :=
+  clamp_range (sigma_at t h) (frange fuel t h).
 
 (* the predefined parameters MATCH (0), OPEN (1), SHORT (-1) at handles 0, 1, 2 *)
 Definition pt_initial : ptable :=
@@ -256,17 +277,17 @@ Fixpoint vn_get_param (fuel : nat) (t : ptable) (v : vnew) (h : Z) : ptable * vn
       match get_param t h with
       | None => (t, v, false)
       | Some (n, p) =>
-        if (vn_ranged v && negb (range_ok (frange (S (length (pt_slots t))) t n) (vn_f0 v) (vn_fmax v)))%bool
+        if (vn_ranged v && negb (range_ok (frange_c (S (length (pt_slots t))) t n) (vn_f0 v) (vn_fmax v)))%bool
         then (t, v, false)
         else
           let reg (t1 : ptable) (v1 : vnew) :=
-            let unk := match p_kind p with KUnknown _ _ | KCorrelated _ _ => true | _ => false end in
+            let unk := match p_kind p with KUnknown _ _ | KCorrelated _ _ _ => true | _ => false end in
             (hold t1 n,
              mkVN (vn_type v1) (vn_dim v1) (vn_nf v1) (vn_fvalid v1) (vn_f0 v1)
                   (vn_params v1 ++ [n]) (if unk then vn_unknowns v1 ++ [n] else vn_unknowns v1)
                   (vn_meas v1) (vn_cal v1), true) in
           match p_kind p with
-          | KCorrelated o _ =>
+          | KCorrelated o _ _ =>
             match vn_get_param f t v (Z.of_nat o) with
             | (t1, v1, true) => reg t1 v1
             | (t1, v1, false) => (t1, v1, false)
@@ -287,10 +308,10 @@ Fixpoint vn_check_param (fuel : nat) (t : ptable) (v : vnew) (h : Z) : bool :=
       match get_param t h with
       | None => false
       | Some (n, p) =>
-        if (vn_ranged v && negb (range_ok (frange (S (length (pt_slots t))) t n) (vn_f0 v) (vn_fmax v)))%bool
+        if (vn_ranged v && negb (range_ok (frange_c (S (length (pt_slots t))) t n) (vn_f0 v) (vn_fmax v)))%bool
         then false
         else match p_kind p with
-             | KCorrelated o _ => vn_check_param f t v (Z.of_nat o)
+             | KCorrelated o _ _ => vn_check_param f t v (Z.of_nat o)
              | _ => true
              end
       end
@@ -327,7 +348,7 @@ Inductive op :=
 | OMakeScalar (g : val) (fail : nat)
 | OMakeVector (fs : list Z) (gs : list val) (fail : nat)
 | OMakeUnknown (h : Z) (fail : nat)
-| OMakeCorrelated (h : Z) (n : Z) (fail : nat)
+| OMakeCorrelated (h : Z) (n : Z) (sf : option (list Z)) (fail : nat)   (* sf = sigma_frequency_vector (None = NULL), n = sigma_frequencies *)
 | ODeleteParam (h : Z)
 | OGetValue (h : Z) (f : Z)
 | ONewAlloc (id : nat) (ty : Z) (dim : Z) (nf : nat)
@@ -418,8 +439,8 @@ Definition get_value (t : ptable) (h : Z) (f : Z) : outcome :=
     match p_kind p with
     | KScalar g => mkOut (RValue g) ENone 0
     | KVector fs gs => table_value false fs gs f
-    | KUnknown _ (Solved fs gs) | KCorrelated _ (Solved fs gs) => table_value true fs gs f
-    | KUnknown _ Unsolved | KCorrelated _ Unsolved => mkOut RHuge EINVAL 1
+    | KUnknown _ (Solved fs gs) | KCorrelated _ _ (Solved fs gs) => table_value true fs gs f
+    | KUnknown _ Unsolved | KCorrelated _ _ Unsolved => mkOut RHuge EINVAL 1
     end
   end.
 
@@ -450,7 +471,7 @@ Definition write_back (t : ptable) (v : vnew) (h : nat) : ptable :=
               else Solved (map (fun i => (vn_f0 v + Z.of_nat i)%Z) (seq 0 (vn_nf v))) (meas_for h (vn_nf v) (vn_meas v)) in
     let k := match p_kind p with
              | KUnknown o _ => KUnknown o sv
-             | KCorrelated o _ => KCorrelated o sv
+             | KCorrelated o sf _ => KCorrelated o sf sv
              | k0 => k0
              end in
     set_slot t h (Some (mkParam k (p_deleted p) (p_hold p)))
@@ -538,24 +559,48 @@ Definition step_gen (asis : bool) (s : state) (o : op) : state * outcome :=
     | None => (s, fail_usage)
     | Some (n, _) => finish_make s (alloc_param_gen (negb asis) t (KUnknown n Unsolved) fl) (fun t => hold t n)
     end
-  | OMakeCorrelated h n fl =>
+  | OMakeCorrelated h n sf fl =>
     match get_param t h with
     | None => (s, fail_usage)
     | Some (o, _) =>
       if (n <? 1)%Z then (s, fail_usage)
+      else if negb (1 <? n)%Z then
+        (* one sigma value: sigma_frequency_vector is ignored, vpmr_sigma_frequency_vector = NULL *)
+        finish_make s (alloc_param_gen (negb asis) t (KCorrelated o None Unsolved) fl) (fun t => hold t o)
       else
-        let shape_ok :=
-          if (1 <? n)%Z then
-            match chain_end (S (length (pt_slots t))) t o with
+        let pe := chain_end (S (length (pt_slots t))) t o in
+        match sf with
+        | None =>
+          (* NULL: the grid of the initial guess, which must be a vector parameter of n points (the new parameter
+             then points at that vector: clamping with it changes nothing, hence None here) *)
+          let shape_ok :=
+            match pe with
             | Some pe => match p_kind pe with
                          | KVector fs _ => Z.eqb (Z.of_nat (length fs)) n
                          | _ => false
                          end
             | None => false
-            end
-          else true in
-        if negb shape_ok then (s, fail_usage)
-        else finish_make s (alloc_param_gen (negb asis) t (KCorrelated o Unsolved) fl) (fun t => hold t o)
+            end in
+          if negb shape_ok then (s, fail_usage)
+          else finish_make s (alloc_param_gen (negb asis) t (KCorrelated o None Unsolved) fl) (fun t => hold t o)
+        | Some sfv =>
+          (* own grid: ONE count for both arrays (a shorter caller array is read past its end: no prediction);
+             every entry non-negative (fix DC93 also refuses NaN / inf, which integers cannot express), strictly
+             ascending, not disjoint with a vector initial guess; the spline's MIN_DX test cannot fail on integers *)
+          if negb (Z.of_nat (length sfv) =? n)%Z then (s, mkOut RUndef ENone 0)
+          else if (existsb (fun f => (f <? 0)%Z) sfv || negb (ascending sfv))%bool then (s, fail_usage)
+          else
+            let disjoint :=
+              match pe with
+              | Some pe => match p_kind pe with
+                           | KVector fs _ => ((last fs 0 <? hd 0 sfv)%Z || (last sfv 0 <? hd 0 fs)%Z)%bool
+                           | _ => false
+                           end
+              | None => false
+              end in
+            if disjoint then (s, fail_usage)
+            else finish_make s (alloc_param_gen (negb asis) t (KCorrelated o (Some sfv) Unsolved) fl) (fun t => hold t o)
+        end
     end
   | ODeleteParam h =>
     if ((0 <=? h)%Z && (h <? 3)%Z)%bool then (s, ok_int 0)      (* predefined: nothing to do *)
@@ -583,7 +628,7 @@ Definition step_gen (asis : bool) (s : state) (o : op) : state * outcome :=
       else
         let fmax := (f0 + Z.of_nat (vn_nf v) - 1)%Z in
         if (negb (0 <? vn_nf v) ||
-            forallb (fun h => range_ok (frange (S (length (pt_slots t))) t h) f0 fmax) (vn_params v))%bool
+            forallb (fun h => range_ok (frange_c (S (length (pt_slots t))) t h) f0 fmax) (vn_params v))%bool
         then (with_new s t id (Some (mkVN (vn_type v) (vn_dim v) (vn_nf v) true f0 (vn_params v)
                                           (vn_unknowns v) (vn_meas v) (vn_cal v))), ok_int 0)
         else (s, fail_usage)
